@@ -155,7 +155,7 @@ func (t *traceWriter) Write(p []byte) (int, error) {
 }
 
 func C12(rep *ev.Reporter, tier string) {
-	bud := NewBudget(55 * time.Second)
+	bud := NewBudget(150 * time.Second)
 	if tier == "thorough" {
 		bud = NewBudget(9 * time.Minute)
 	}
